@@ -35,11 +35,12 @@ const (
 	sigJSONNullDocMissing     = "C07/rows-missing/json-condition-on-absent-path-or-null-json"
 	sigJSONRootScalarMatcher  = "C07/error-only-indexed/json-root-condition-scalar-matcher"
 	sigIlikeInfixCase         = "C07/rows-missing/ilike-infix-pattern-case"
+	sigInEmptyList            = "C07/query-panic/in-empty-list"
 	sigJSONArrayDupCorrupted  = "C07/write/corrupted-index-json-array-duplicate-elements"
 )
 
 var switchSigs = []string{sigJSONNullPanic, sigAllEmptyArray, sigInDuplicates, sigNlikeNull, sigJSONPathScanErr,
-	sigOrBranch, sigInListOrder, sigDeleteDeleted, sigInUnclosed, sigBlobMatcher, sigRelNe, sigScanOrderLaterKey, sigJSONRootOnLeaves, sigCompositeArrayEmpty, sigCompositeArrayDup, sigInvertedJoinDropsConds, sigInNullUnique, sigShowDeletedOrder, sigPartialUpdate, sigPartialUpdatePanic, sigJSONNullDocMissing, sigJSONRootScalarMatcher, sigIlikeInfixCase, sigJSONArrayDupCorrupted}
+	sigOrBranch, sigInListOrder, sigDeleteDeleted, sigInUnclosed, sigBlobMatcher, sigRelNe, sigScanOrderLaterKey, sigJSONRootOnLeaves, sigCompositeArrayEmpty, sigCompositeArrayDup, sigInvertedJoinDropsConds, sigInNullUnique, sigShowDeletedOrder, sigPartialUpdate, sigPartialUpdatePanic, sigJSONNullDocMissing, sigJSONRootScalarMatcher, sigIlikeInfixCase, sigJSONArrayDupCorrupted, sigInEmptyList}
 
 func pick[T any](t *rapid.T, label string, xs []T) T {
 	return xs[rapid.IntRange(0, len(xs)-1).Draw(t, label)]
@@ -391,6 +392,9 @@ func (g *gen) fillCmp(leaf *F, kind, poolName string, ops []string) {
 				}
 			}
 			leaf.Vals = append(leaf.Vals, v)
+		}
+		if len(leaf.Vals) == 0 && leaf.Cmp == "_in" && g.avoid(sigInEmptyList) {
+			leaf.Vals = []string{g.scalarConst(kind, poolName, false)}
 		}
 		if leaf.Vals == nil {
 			leaf.Vals = []string{}
